@@ -245,19 +245,27 @@ def compare_rules(ctx: Ctx, fi) -> None:
                           construct="collapsed-note removal does not test end - start <= 0",
                           message=f"`{short(g.test)}`: zero-length notes would survive, or proper notes be removed", file=fi.file, node=g)
     n_overlap = 0
-    for g in [x for x in ast.walk(loop) if isinstance(x, ast.If) and isinstance(x.test, ast.BoolOp) and isinstance(x.test.op, ast.Or)]:
-        parts = g.test.values
+    from ..model import _Canon
+    for g in [x for x in ast.walk(loop) if isinstance(x, ast.If) and x.orelse and "[1]" in src(x.test)]:
+        # the branch that accepts the note-on is the one that registers it in a table; its condition is the test or its negation
+        def registers(blk):
+            return any(isinstance(a, ast.Assign) and isinstance(a.targets[0], ast.Subscript) for y in blk for a in ast.walk(y))
+        if registers(g.body) == registers(g.orelse):
+            continue
+        cond = g.test if registers(g.body) else _Canon().visit_UnaryOp(ast.UnaryOp(op=ast.Not(), operand=g.test))
+        parts = cond.values if isinstance(cond, ast.BoolOp) and isinstance(cond.op, ast.Or) else [cond]
         notin = [v for v in parts if isinstance(v, ast.Compare) and isinstance(v.ops[0], ast.NotIn)]
-        rels = [relation(v, nz) for v in parts if relation(v, nz) is not None and not (isinstance(v, ast.Compare) and isinstance(v.ops[0], ast.NotIn))]
-        if len(notin) == 1 and len(rels) == 1:
+        rels = [relation(v, nz) for v in parts if relation(v, nz) is not None and not (isinstance(v, ast.Compare) and isinstance(v.ops[0], (ast.NotIn, ast.In)))]
+        n_overlap += 1
+        ok = False
+        if len(notin) == 1 and len(rels) == 1 and len(parts) == 2:
             d, op = rels[0]
             tatoms = [a for a in d.atoms() if a.endswith(".time")]
             oatoms = [a for a in d.atoms() if not a.endswith(".time")]
             ok = len(tatoms) == 1 and len(oatoms) == 1 and oatoms[0].endswith("[1]") and same_relation(rels[0], Sym.atom(tatoms[0]) - Sym.atom(oatoms[0]), ">=")
-            n_overlap += 1
-            ctx.check(ok, "OVERLAP", f"{FN}: a note-on is accepted iff it does not start before the previous end of its key (`{short(g.test, 80)}`)", function=FN,
-                      construct="overlap test is not `no previous note, or start >= previous end`",
-                      message=f"`{short(g.test, 100)}`", file=fi.file, node=g)
+        ctx.check(ok, "OVERLAP", f"{FN}: a note-on is accepted iff it does not start before the previous end of its key (`{short(cond, 80)}`)", function=FN,
+                  construct="overlap test is not `no previous note, or start >= previous end`",
+                  message=f"accepting condition `{short(cond, 100)}`", file=fi.file, node=g)
     ctx.floor("overlap tests (OVERLAP) in quantise", n_overlap, 1)
 
 
